@@ -5,6 +5,7 @@ import Girc.Drv.RunOps
 import Girc.Drv.ConcOps
 import Girc.Drv.GenOps
 import Girc.Drv.GenOps3
+import Girc.Drv.GenOps4
 import Girc.Drv.StsOps
 import Girc.Model.Names
 import Girc.Model.Glob
@@ -30,6 +31,6 @@ def handleBasic (op : String) (args : List String) : Option String :=
   | _, _ => none
 
 def handle (op : String) (args : List String) : Option String :=
-  (handleBasic op args) <|> (handleEvent op args) <|> (handlePure op args) <|> (handleRun op args) <|> (handleConc op args) <|> (handleGen op args) <|> (handleGen3 op args) <|> (handleSts op args)
+  (handleBasic op args) <|> (handleEvent op args) <|> (handlePure op args) <|> (handleRun op args) <|> (handleConc op args) <|> (handleGen op args) <|> (handleGen3 op args) <|> (handleGen4 op args) <|> (handleSts op args)
 
 end Girc.Drv
